@@ -204,7 +204,7 @@ class C09(Check):
                   'atomic steps (hardware/compiler memory ordering is outside the model) and is validated on the implementation only on the '
                   'schedules actually run: baton-passing real threads switched at the scheduling points placed before and after every atomic '
                   'operation (schedules generated, 2-thread scope exhaustive up to the stated depth) and free-running real threads on the schedules '
-                  'the OS produced, all under ASan/UBSan; TSan was not used. Validated by correspondence only (no theorem): the values read through '
+                  'the OS produced, all under ASan/UBSan; the free-running scenarios are also run under TSan as a search oracle only (a plain write racing with an atomic access counts; the plain reads of `ref` that TSan reports on the unchanged code are the part that sequential consistency assumes away). Validated by correspondence only (no theorem): the values read through '
                   'the handles (copies are independent) against the value-semantics Spec; nested Variant payloads (handles inside payloads) are '
                   'not modelled; String/Variant constructors from literals (uncounted inline data) are outside the model.')
     technique = ('machine-checked proof (Coq 8.16) about an executable model (sequential handle/block machine + interleaving machine) + differential '
@@ -231,6 +231,81 @@ class C09(Check):
             for k, v in c.items():
                 crashes[i + k] = v
         return res, crashes
+
+    # ---- TSan, as search only -----------------------------------------------------------------
+    # A report counts when a plain (non-atomic) WRITE races with an atomic access or with another plain
+    # write, or when TSan reports anything other than a data race (use after free ...).  The library's
+    # plain READS of `ref` racing with atomic updates, and an in-place payload write after the plain read
+    # `ref == 1`, are reported by TSan on the good tree too: they are data races in the C++11 sense and
+    # exactly the part the level_note puts outside the model (sequential consistency is assumed).
+    def main(self, tier, seed, replay=None):
+        self._replay = replay
+        return Check.main(self, tier, seed, replay)
+
+    def tsan_suspicious(self, err):
+        out = []
+        for rep in err.split('=================='):
+            m = re.search(r'WARNING: ThreadSanitizer: ([^\n(]*)', rep)
+            if not m:
+                continue
+            kind = m.group(1).strip()
+            acc = [a.lower() for a in re.findall(r'^\s+((?:Previous )?(?:[Aa]tomic )?(?:[Rr]ead|[Ww]rite)) of size \d+', rep, flags=re.M)]
+            acc = [a.replace('previous ', '') for a in acc]
+            if kind != 'data race':
+                out.append(rep.strip()[:1800])
+            elif 'write' in acc and all(a in ('write', 'atomic write', 'atomic read') for a in acc):
+                out.append(rep.strip()[:1800])
+        return out
+
+    def tsan_run(self, exe, cases, tag):
+        wd = os.path.join(BUILD, self.id, 'run')
+        os.makedirs(wd, exist_ok=True)
+        from vf import write_cases
+        f = os.path.join(wd, tag + '.ops')
+        write_cases(f, cases)
+        env = dict(os.environ)
+        env['TSAN_OPTIONS'] = 'halt_on_error=0 report_signal_unsafe=0 exitcode=0'
+        rc, o, e = sh([exe, f], cwd=wd, timeout=600, env=env)
+        return self.tsan_suspicious(e)
+
+    def extra_checks(self, tier, rng, ctx):
+        cases = list(getattr(self, '_tsan_cases', []))
+        if self._replay:
+            try:
+                rp = json.load(open(self._replay if os.path.isabs(self._replay) else os.path.join(VERIF, self._replay)))
+                cases = [rp['ops']] if any(l.startswith('free') for l in rp.get('ops', [])) else []
+            except (OSError, ValueError):
+                cases = []
+        if not cases:
+            return
+        lib, l = build_libnstd(variant='tsan', extra_flags=['-fsanitize=thread'])
+        if not lib:
+            log('[C09] TSan search skipped: libnstd does not build with -fsanitize=thread')
+            return
+        exe, l = build_harness(self.id, self.harness_sources, lib, extra_flags=['-fsanitize=thread'], variant='tsan', name='harness_tsan')
+        if not exe:
+            log('[C09] TSan search skipped: harness does not build with -fsanitize=thread: ' + l[-500:])
+            return
+        sus = self.tsan_run(exe, cases, 'tsan_all')
+        self.tsan_stats = {'cases': len(cases), 'suspicious_reports': len(sus)}
+        if not sus:
+            return
+        # locate one case that reproduces a suspicious report on its own
+        found = None
+        for c in sorted(cases, key=len):
+            s1 = self.tsan_run(exe, [c], 'tsan_one')
+            if s1:
+                found = (c, s1[0])
+                break
+        if not found:
+            found = ([], sus[0])
+        case, rep = found
+        if case:
+            still = lambda cand: any(l.startswith('free') for l in cand) and bool(self.tsan_run(exe, [cand], 'tsan_shr'))
+            case = self.shrink(case, still, budget=60)
+        p = self.write_replay('failing-input', 'TSan (search oracle): a non-atomic write races with an atomic access to the same word, in free-running threads',
+                              case, {'reason': 'ThreadSanitizer report', 'report': rep})
+        ctx['violations'].append((p, ''))
 
     # ---- oracle -------------------------------------------------------------------------------
     def judge(self, cases, impl_obs, spec_obs):
@@ -325,6 +400,7 @@ class C09(Check):
         # free-running threads
         cases = [gen_conc(rng, rng.choice(FLAVS), free=True) for _ in range(1200 if thorough else 200)]
         out.append(Stream('conc_free', cases, note='same scenarios, threads released together and left to the OS scheduler, 2-5 repetitions each'))
+        self._tsan_cases = cases + [c for c in self.conc_targeted(rng, 0)]
         return out
 
     def targeted(self):
